@@ -12,7 +12,7 @@
 //!                            | {"name": s, "nnames": k, "versions": [F0, F1, ..], "panics": [..]} ]}
 //!     F0 is the lowered function, Fi the function after the i-th pass of the chain (null after a panic).
 //! (2) {"id":.., "mir": F, "pass": "ccp"}  (replay of a model witness on the real pass)
-//!     builds the mir::Function denoted by F (names are numbers, printed as "v%05d" so that the PStr
+//!     builds the mir::Function denoted by F (names are numbers, printed as "V%07d" so that the PStr
 //!     order is the numeric order) and returns {"id":.., "after": F' | "panic": msg}.
 //!
 //! Encoding F = {"params": [n..], "body": [S..], "ret": E}
@@ -245,6 +245,40 @@ impl Enc<'_> {
   }
 }
 
+/// A pass of the chain: a single pass (`verif::run_function_pass`) or "rounds:lvn", "rounds:lvn+cse", ...:
+/// the real driver `optimize_function_for_rounds` with these switches (`verif::run_function_rounds`).
+fn run_named(pass: &str, f: &mut Function, counter: &samlang_heap::TempPStrCounter) -> bool {
+  if let Some(flags) = pass.strip_prefix("rounds") {
+    samlang_optimization::verif::run_function_rounds(f, counter, flags.contains("lvn"), flags.contains("cse"), false, false);
+    true
+  } else {
+    samlang_optimization::verif::run_function_pass(pass, f, counter)
+  }
+}
+
+fn temp_id(s: &str) -> Option<u64> {
+  s.strip_prefix("_t").and_then(|r| r.parse::<u64>().ok())
+}
+
+fn types_stmts(ss: &[Statement], out: &mut BTreeSet<Type>) {
+  for s in ss {
+    match s {
+      Statement::IsPointer { pointer_type, .. } => {
+        out.insert(Type::Id(*pointer_type));
+      }
+      Statement::IndexedAccess { type_, .. } | Statement::Cast { type_, .. } => {
+        out.insert(*type_);
+      }
+      Statement::IfElse { s1, s2, .. } => {
+        types_stmts(s1, out);
+        types_stmts(s2, out);
+      }
+      Statement::SingleIf { statements, .. } | Statement::While { statements, .. } => types_stmts(statements, out),
+      _ => {}
+    }
+  }
+}
+
 // ------------------------------------------------------------------------------------------------
 // mode (1): sources -> chain of passes
 // ------------------------------------------------------------------------------------------------
@@ -275,7 +309,18 @@ fn dump_sources(job: &Value) -> Value {
     .as_array()
     .map(|a| a.iter().filter_map(|p| p.as_str().map(|s| s.to_string())).collect())
     .unwrap_or_default();
-  let mut types: HashMap<Type, usize> = HashMap::new();
+  // types are numbered in the order of `Type::cmp` (common subexpression elimination sorts by it)
+  let mut all_types = BTreeSet::new();
+  for f in &sources.functions {
+    types_stmts(&f.body, &mut all_types);
+  }
+  let mut types: HashMap<Type, usize> = all_types.iter().enumerate().map(|(i, t)| (*t, i)).collect();
+  // "rounds": one driver configuration or a list of them
+  let rounds: Vec<String> = match &job["rounds"] {
+    Value::String(s) => vec![s.clone()],
+    Value::Array(a) => a.iter().filter_map(|p| p.as_str().map(|s| s.to_string())).collect(),
+    _ => Vec::new(),
+  };
   let mut fnames: HashMap<FunctionName, usize> = HashMap::new();
   let mut out = Vec::new();
   for f in &sources.functions {
@@ -291,7 +336,7 @@ fn dump_sources(job: &Value) -> Value {
         Some(prev) => {
           let mut g = prev.clone();
           match catch_unwind(AssertUnwindSafe(|| {
-            if !samlang_optimization::verif::run_function_pass(p, &mut g, &counter) {
+            if !run_named(p, &mut g, &counter) {
               panic!("unknown pass {p}");
             }
             g
@@ -306,10 +351,40 @@ fn dump_sources(job: &Value) -> Value {
       };
       versions.push(next);
     }
+    // the real driver on the lowered function (job field "rounds": "rounds:lvn" | "rounds:lvn+cse" | ...)
+    // (every run starts from the same temporary counter, so that the same pass order makes the same names)
+    let mut rounds_versions: Vec<Option<Function>> = Vec::new();
+    let mut rounds_counters = Vec::new();
+    for r in &rounds {
+      let counter_r = heap.create_temp_counter();
+      let mut g = f.clone();
+      rounds_versions.push(match catch_unwind(AssertUnwindSafe(|| {
+        run_named(r, &mut g, &counter_r);
+        g
+      })) {
+        Ok(g) => Some(g),
+        Err(e) => {
+          panics.push(json!({"pass": r, "msg": panic_msg(e)}));
+          None
+        }
+      });
+      rounds_counters.push(counter_r);
+    }
+    // every temporary a run allocated (also those a later pass removed again), in allocation order
+    let start = temp_id(heap.create_temp_counter().alloc_temp_str().as_str(&heap)).unwrap_or(0);
+    let allocated = |c: &samlang_heap::TempPStrCounter, heap: &mut Heap| -> Vec<PStr> {
+      let end = temp_id(c.alloc_temp_str().as_str(heap)).unwrap_or(start);
+      (start..end).map(|id| heap.alloc_string(format!("_t{id}"))).collect()
+    };
+    let rounds_allocated: Vec<Vec<PStr>> = rounds_counters.iter().map(|c| allocated(c, &mut heap)).collect();
+    let chain_allocated: Vec<PStr> = allocated(&counter, &mut heap);
     heap.sync_temp_counter(&counter);
+    for c in &rounds_counters {
+      heap.sync_temp_counter(c);
+    }
     let mut names = BTreeSet::new();
     let mut skip = None;
-    for v in versions.iter().flatten() {
+    for v in versions.iter().flatten().chain(rounds_versions.iter().flatten()) {
       if let Err(r) = scan_function(v, &mut names) {
         skip = Some(r);
         break;
@@ -319,12 +394,38 @@ fn dump_sources(job: &Value) -> Value {
       out.push(json!({"name": fname, "skip": r}));
       continue;
     }
+    for n in chain_allocated.iter().chain(rounds_allocated.iter().flatten()) {
+      names.insert(*n);
+    }
     // BTreeSet iterates in PStr::cmp order: the rank is the position
     let rank: HashMap<PStr, u64> = names.iter().enumerate().map(|(i, n)| (*n, i as u64)).collect();
     let name_of = |n: PStr| rank[&n];
     let mut enc = Enc { name: &name_of, types: &mut types, fnames: &mut fnames };
     let vs: Vec<Value> = versions.iter().map(|v| v.as_ref().map(|v| enc.function(v)).unwrap_or(Value::Null)).collect();
-    out.push(json!({"name": fname, "nnames": names.len(), "versions": vs, "panics": panics}));
+    let rv: Vec<Value> = rounds_versions.iter().map(|v| v.as_ref().map(|v| enc.function(v)).unwrap_or(Value::Null)).collect();
+    // temporaries made by each pass, in the order in which they were allocated ("_t<id>")
+    let names_of = |v: &Function| -> BTreeSet<PStr> {
+      let mut s = BTreeSet::new();
+      let _ = scan_function(v, &mut s);
+      s
+    };
+    let fresh_between = |a: &Function, b: &Function| -> Vec<u64> {
+      let na = names_of(a);
+      let mut fresh: Vec<(u64, u64)> =
+        names_of(b).iter().filter(|n| !na.contains(*n)).filter_map(|n| temp_id(n.as_str(&heap)).map(|id| (id, rank[n]))).collect();
+      fresh.sort();
+      fresh.into_iter().map(|(_, r)| r).collect()
+    };
+    let fresh: Vec<Value> = (0..passes.len())
+      .map(|k| match (&versions[k], &versions[k + 1]) {
+        (Some(a), Some(b)) => json!(fresh_between(a, b)),
+        _ => Value::Null,
+      })
+      .collect();
+    let rounds_fresh: Vec<Value> =
+      rounds_allocated.iter().map(|a| json!(a.iter().map(|n| rank[n]).collect::<Vec<u64>>())).collect();
+    out.push(json!({"name": fname, "nnames": names.len(), "versions": vs, "fresh": fresh, "rounds": rv,
+                    "rounds_fresh": rounds_fresh, "panics": panics}));
   }
   json!({"id": id, "passes": passes, "functions": out})
 }
@@ -337,21 +438,40 @@ struct Dec {
   heap: Heap,
   table: SymbolTable,
   types: HashMap<Type, usize>,
+  type_of: Vec<Type>,
   fnames: HashMap<FunctionName, usize>,
+  max_name: u64,
+}
+
+fn max_type_number(v: &Value) -> u64 {
+  match v {
+    Value::Array(a) => {
+      let here = if a.first().and_then(|x| x.as_str()) == Some("prim") { a.get(3).and_then(|x| x.as_u64()).unwrap_or(0) } else { 0 };
+      a.iter().map(max_type_number).max().unwrap_or(0).max(here)
+    }
+    Value::Object(o) => o.values().map(max_type_number).max().unwrap_or(0),
+    _ => 0,
+  }
 }
 
 impl Dec {
   fn name(&mut self, v: &Value) -> PStr {
     let n = v.as_u64().unwrap_or(0);
-    self.heap.alloc_string(format!("v{n:05}"))
+    self.max_name = self.max_name.max(n);
+    self.heap.alloc_string(format!("V{n:07}"))
   }
 
+  /// type number n -> a type name id; created in increasing order of n so that `Type::cmp` is the numeric order
   fn ty(&mut self, v: &Value) -> Type {
-    let n = v.as_u64().unwrap_or(0);
-    let name = self.heap.alloc_string(format!("T{n}"));
-    let t = Type::Id(self.table.create_type_name_for_test(name));
-    self.types.insert(t, n as usize);
-    t
+    let n = v.as_u64().unwrap_or(0) as usize;
+    while self.type_of.len() <= n {
+      let k = self.type_of.len();
+      let name = self.heap.alloc_string(format!("T{k}"));
+      let t = Type::Id(self.table.create_type_name_for_test(name));
+      self.types.insert(t, k);
+      self.type_of.push(t);
+    }
+    self.type_of[n]
   }
 
   fn expr(&mut self, v: &Value) -> Expression {
@@ -448,8 +568,9 @@ impl Dec {
 
 fn replay(job: &Value) -> Value {
   let id = job["id"].clone();
-  let mut d = Dec { heap: Heap::new(), table: SymbolTable::new(), types: HashMap::new(), fnames: HashMap::new() };
+  let mut d = Dec { heap: Heap::new(), table: SymbolTable::new(), types: HashMap::new(), type_of: Vec::new(), fnames: HashMap::new(), max_name: 0 };
   let m = &job["mir"];
+  let _ = d.ty(&json!(max_type_number(m)));
   let parameters: Vec<PStr> = m["params"].as_array().map(|a| a.iter().map(|p| d.name(p)).collect()).unwrap_or_default();
   let body = d.stmts(&m["body"]);
   let return_value = d.expr(&m["ret"]);
@@ -464,7 +585,7 @@ fn replay(job: &Value) -> Value {
   let pass = job["pass"].as_str().unwrap_or("").to_string();
   let counter = d.heap.create_temp_counter();
   let r = catch_unwind(AssertUnwindSafe(|| {
-    if !samlang_optimization::verif::run_function_pass(&pass, &mut f, &counter) {
+    if !run_named(&pass, &mut f, &counter) {
       panic!("unknown pass {pass}");
     }
     f
@@ -477,13 +598,20 @@ fn replay(job: &Value) -> Value {
   if let Err(r) = scan_function(&f, &mut names) {
     return json!({"id": id, "skip": r});
   }
+  // a name made by the pass (fresh temporary "_t<id>") is reported above the range of the input names ("V.." < "_t.."),
+  // the temporaries among themselves in their PStr order; `fresh` lists all that were allocated, in allocation order
+  let base = (d.max_name + 1).max(1_000_000);
+  let start = temp_id(d.heap.create_temp_counter().alloc_temp_str().as_str(&d.heap)).unwrap_or(0);
+  let end = temp_id(counter.alloc_temp_str().as_str(&d.heap)).unwrap_or(start);
+  let allocated: Vec<PStr> = (start..end).map(|id| d.heap.alloc_string(format!("_t{id}"))).collect();
+  let sorted: BTreeSet<PStr> = allocated.iter().copied().collect();
+  let temp_rank: HashMap<PStr, u64> = sorted.iter().enumerate().map(|(i, n)| (*n, i as u64)).collect();
   let heap = &d.heap;
   let name_of = |n: PStr| -> u64 {
     let s = n.as_str(heap);
-    match s.strip_prefix('v').and_then(|r| r.parse::<u64>().ok()) {
+    match s.strip_prefix('V').and_then(|r| r.parse::<u64>().ok()) {
       Some(k) => k,
-      // a name made by the pass (fresh temporary): reported above the range of the input names
-      None => 1_000_000 + s.trim_start_matches(|c: char| !c.is_ascii_digit()).parse::<u64>().unwrap_or(0),
+      None => base + temp_rank.get(&n).copied().unwrap_or(999_999),
     }
   };
   let mut types = d.types.clone();
@@ -491,7 +619,8 @@ fn replay(job: &Value) -> Value {
   let mut enc = Enc { name: &name_of, types: &mut types, fnames: &mut fnames };
   let after = enc.function(&f);
   let text = catch_unwind(AssertUnwindSafe(|| f.debug_print(heap, &d.table))).unwrap_or_default();
-  json!({"id": id, "after": after, "text": text})
+  let fresh: Vec<u64> = allocated.iter().map(|n| base + temp_rank[n]).collect();
+  json!({"id": id, "after": after, "fresh": fresh, "text": text})
 }
 
 pub fn main(_args: &[String]) {
